@@ -416,8 +416,8 @@ class Scalar(Qube):
                 try:
                     func_values = np.arcsin(self._values_)
                 except RuntimeWarning:
-                    raise ValueError('Scalar.arcsin() of value outside domain '
-                                     '(-1,1)')
+                    func_values = self._func_of_unmasked(np.arcsin, 0.,
+                            'Scalar.arcsin() of value outside domain (-1,1)')
 
             obj = Scalar(func_values, mask=self._mask_)
 
